@@ -176,8 +176,125 @@ def check_validate(inp):
         pass
 
 
+def _make_tff(path, nclients):
+  import sqlite3
+  import numpy as np
+  import tensorflow as tf
+  con = sqlite3.connect(path)
+  con.execute('CREATE TABLE examples (split_name TEXT NOT NULL, client_id TEXT NOT NULL, serialized_example_proto BLOB NOT NULL);')
+  con.execute('CREATE TABLE client_metadata (client_id TEXT NOT NULL, split_name TEXT NOT NULL, num_examples INTEGER NOT NULL);')
+  for sp in ('train', 'test'):
+    for c in range(nclients):
+      for e in range(2):
+        ex = tf.train.Example(features=tf.train.Features(feature={
+            'coarse_label': tf.train.Feature(int64_list=tf.train.Int64List(value=[c % 20])),
+            'label': tf.train.Feature(int64_list=tf.train.Int64List(value=[c])),
+            'image': tf.train.Feature(int64_list=tf.train.Int64List(value=((np.arange(32 * 32 * 3) + c + e) % 256).tolist()))}))
+        con.execute('INSERT INTO examples VALUES (?, ?, ?);', [sp, f'{sp}{c}', ex.SerializeToString()])
+      con.execute('INSERT INTO client_metadata VALUES (?, ?, ?);', [f'{sp}{c}', sp, 2])
+  con.commit()
+  con.close()
+
+
+def check_cifar(inp):
+  """cifar100.load_split on a tiny TFF-format database (download / decompress stubbed out, size + digest tables set from a
+  reference conversion): an error at the k-th client of the conversion, or a stale temporary, must not leave a file that a
+  later call reuses as the dataset; order and arguments of the validations."""
+  from fedjax.datasets import cifar100
+  split, nclients, crash_at = inp['split'], inp['clients'], inp['crash_at']
+  saved = (cifar100.downloads.maybe_download, cifar100.downloads.maybe_lzma_decompress, cifar100.downloads.validate_file,
+           cifar100._parse_tf_examples, dict(cifar100._FEDJAX_SQLITE_NUM_BYTES), dict(cifar100._FEDJAX_SQLITE_HEXDIGEST))
+  real_validate = downloads.validate_file
+  with tempfile.TemporaryDirectory() as ref_d, tempfile.TemporaryDirectory() as d:
+    try:
+      calls = []
+
+      def setup(dirname):
+        tff = os.path.join(dirname, 'cifar100.sqlite')
+        _make_tff(tff, nclients)
+        cifar100.downloads.maybe_download = lambda url, cache_dir=None, progress_=None: calls.append('download') or tff + '.lzma'
+        cifar100.downloads.maybe_lzma_decompress = lambda p_: calls.append('decompress') or tff
+
+        def validate(path, nbytes, digest):
+          calls.append(('validate', os.path.basename(path), nbytes, digest))
+          if not path.endswith('.lzma'):
+            real_validate(path, nbytes, digest)
+        cifar100.downloads.validate_file = validate
+      # reference conversion: fixes the expected size / digest of this tiny dataset
+      setup(ref_d)
+      cifar100.downloads.validate_file = lambda *a, **k: None
+      ref = cifar100.load_split(split, cache_dir=ref_d)
+      ref_ids = list(ref.client_ids())
+      ref_path = os.path.join(ref_d, f'federated_cifar100_{split}.sqlite')
+      data = open(ref_path, 'rb').read()
+      cifar100._FEDJAX_SQLITE_NUM_BYTES[split] = len(data)
+      cifar100._FEDJAX_SQLITE_HEXDIGEST[split] = hashlib.sha256(data).hexdigest()
+      del ref
+      setup(d)
+      final = os.path.join(d, f'federated_cifar100_{split}.sqlite')
+      if inp.get('stale'):
+        with open(final + '.partial', 'wb') as f:
+          f.write(b'stale bytes of an earlier killed conversion')
+      if crash_at is not None:
+        real_parse = cifar100._parse_tf_examples
+        n = {'c': 0}
+
+        def crashing(vs):
+          n['c'] += 1
+          if n['c'] == crash_at:
+            raise Boom('disk full / killed during the conversion')
+          return real_parse(vs)
+        cifar100._parse_tf_examples = crashing
+        try:
+          cifar100.load_split(split, cache_dir=d)
+        except Boom:
+          pass
+        cifar100._parse_tf_examples = real_parse
+        if os.path.exists(final) and open(final, 'rb').read() != data:
+          return (f'an error at client {crash_at} of {nclients} of the conversion left {os.path.basename(final)} under its '
+                  f'final name with {os.path.getsize(final)} of {len(data)} bytes: later calls reuse it as the dataset')
+      del calls[:]
+      try:
+        got = cifar100.load_split(split, cache_dir=d)
+      except Exception as e:  # pylint: disable=broad-except
+        return f'a later call without any fault failed with {type(e).__name__}: {e} (directory: {sorted(os.listdir(d))})'
+      ids = list(got.client_ids())
+      if ids != ref_ids:
+        return f'after an interrupted conversion a later call returns clients {ids}, the complete dataset has {ref_ids}'
+      if not os.path.exists(final) or open(final, 'rb').read() != data:
+        return 'a successful call did not leave the complete converted file under its final name'
+      names = [c if isinstance(c, str) else c[0] for c in calls]
+      if names[:3] != ['download', 'validate', 'decompress']:
+        return f'the downloaded archive is not validated before it is decompressed: calls {names}'
+      if calls[1][2:] != (cifar100._TFF_SQLITE_COMPRESSED_NUM_BYTES, cifar100._TFF_SQLITE_COMPRESSED_HEXDIGEST):
+        return 'the archive is validated against other constants than the pinned size / digest'
+      conv = [c for c in calls[3:] if not isinstance(c, str)]
+      if len(conv) != 1 or conv[0][2:] != (len(data), cifar100._FEDJAX_SQLITE_HEXDIGEST[split]):
+        return f'the converted file is not validated once against the size / digest of split {split!r}: {conv}'
+      del calls[:]
+      again = cifar100.load_split(split, cache_dir=d)
+      if list(again.client_ids()) != ref_ids or any(not isinstance(c, str) and not c[1].endswith('.lzma') for c in calls):
+        return 'a complete converted file is not simply reused'
+    finally:
+      (cifar100.downloads.maybe_download, cifar100.downloads.maybe_lzma_decompress, cifar100.downloads.validate_file,
+       cifar100._parse_tf_examples) = saved[:4]
+      cifar100._FEDJAX_SQLITE_NUM_BYTES.update(saved[4])
+      cifar100._FEDJAX_SQLITE_HEXDIGEST.update(saved[5])
+
+
+def sweep_cifar(tier, seed):
+  yield dict(split='train', clients=3, crash_at=None)
+  yield dict(split='train', clients=3, crash_at=1)
+  yield dict(split='test', clients=3, crash_at=3)
+  yield dict(split='train', clients=3, crash_at=None, stale=True)
+  if tier != 'quick':
+    yield dict(split='test', clients=4, crash_at=2, stale=True)
+    yield dict(split='train', clients=4, crash_at=4)
+
+
 CHECKERS = {'download': (check_download, sweep_download), 'lzma': (check_lzma, sweep_lzma),
-            'validate': (check_validate, lambda t, s: [dict(size=0), dict(size=10)])}
+            'validate': (check_validate, lambda t, s: [dict(size=0), dict(size=10)]),
+            'cifar': (check_cifar, sweep_cifar)}
 
 if __name__ == '__main__':
   sys.exit(common.main(CHECKERS))
